@@ -27,6 +27,7 @@ func runC05(c *Ctx, r *Report) {
 		return
 	}
 	c05NoSilentSkip(c, r)
+	c05OmissionBaseType(c, r)
 	sizeCRC, _ := c.constInt(c.fit, "headerSizeCRC")
 	// the tail of Encode (size, header, checksums, output) may live in a helper that Encode returns
 	// the result of: analyse the function that holds it, the callers' part is checked by encodeUnit
@@ -1246,6 +1247,43 @@ func encodeDefCoversIn(c *Ctx, r *Report, rule string, fn *ssa.Function) {
 			}
 		} else {
 			sources = []ssa.Value{defv}
+		}
+		// a definition kept in a plain local (no closure captures it) is a merge of its assignments
+		{
+			var flat []ssa.Value
+			seenPhi := map[*ssa.Phi]bool{}
+			seenCell := map[*ssa.Alloc]bool{}
+			var expand func(v ssa.Value)
+			expand = func(v ssa.Value) {
+				if phi, isPhi := v.(*ssa.Phi); isPhi {
+					if seenPhi[phi] {
+						return
+					}
+					seenPhi[phi] = true
+					for _, e := range phi.Edges {
+						expand(e)
+					}
+					return
+				}
+				if ld, isLd := v.(*ssa.UnOp); isLd && ld.Op == token.MUL {
+					if cell, isCell := ld.X.(*ssa.Alloc); isCell && !seenCell[cell] {
+						seenCell[cell] = true
+						for _, ref := range *cell.Referrers() {
+							if st, ok := ref.(*ssa.Store); ok && st.Addr == ssa.Value(cell) {
+								expand(st.Val)
+							}
+						}
+						return
+					}
+				}
+				if !isNilConst(v) {
+					flat = append(flat, v)
+				}
+			}
+			for _, s := range sources {
+				expand(s)
+			}
+			sources = flat
 		}
 		why := ""
 		ok := len(sources) > 0
